@@ -67,8 +67,10 @@ def gen_plan(rng, index, tier):
             steps.append({"op": "ndens", "idx": rng.randrange(1000), "nuc": rng.choice(["U235", "U238", "ZR", "FE", "NA23"]), "factor": rng.choice([0.5, 1.5, 2.0])})
         elif r < 0.77:
             steps.append({"op": "temp", "idx": rng.randrange(1000), "T": rng.choice([350.0, 400.0, 450.0, 475.0])})
-        elif r < 0.83:
+        elif r < 0.80:
             steps.append({"op": "pitch", "pitch": rng.choice([16.8, 17.0, 18.5, 20.0])})
+        elif r < 0.83:
+            steps.append({"op": "sfppitch", "xw": rng.choice([32.0, 40.0, 50.0]), "yw": rng.choice([32.0, 36.0, 50.0])})
         elif r < 0.88:
             steps.append({"op": "height", "idx": rng.randrange(1000), "factor": rng.choice([0.9, 1.1, 1.25])})
         elif r < 0.92:
@@ -281,6 +283,13 @@ class Runner:
             r.core.spatialGrid.changePitch(st["pitch"])
             self.edits += 1
             self.probe("pitch_change_depth_%d" % min(depth, 3))
+        elif op == "sfppitch" and not self.readonly:
+            sfp = r.excore.get("sfp")
+            if sfp is not None and sfp.spatialGrid is not None:
+                # a Cartesian grid with an origin offset (the pool)
+                sfp.spatialGrid.changePitch(st["xw"], st["yw"])
+                self.edits += 1
+                self.probe("cartesian_offset_grid_pitch_change")
         elif op == "height" and not self.readonly:
             blks = c06.objects_at_level(r, "block")
             b = blks[st["idx"] % len(blks)]
@@ -328,6 +337,9 @@ class Runner:
                 k = next(kk for kk in sa if sa[kk] != sb.get(kk))
                 self.fail("C16.copy", f"deep copy differs from the original in {type(a).__name__}.{k}: {str(sa[k])[:120]} vs {str(sb.get(k))[:120]}", what="values", field=k)
                 break
+        # linked dimensions stay inside the family: a link of a component of the copy must point at a
+        # sibling inside the copy (never at the original, a prototype or any third object)
+        self.check_links(copy_objs, f"deep copy of {type(o).__name__}")
         # independence: edit the copy, the original must not move; edit the original, the copy must not move
         tgt = copy_objs[st["u"] % len(copy_objs)]
         tgt.p.vP3 = 777.0 + st["u"]
@@ -345,6 +357,18 @@ class Runner:
         if len(self.extra_live) > 3:
             self.extra_live.pop(0)
         self.edits += 1
+
+    def check_links(self, objs, label):
+        ids = {id(x) for x in objs}
+        for x in objs:
+            if x.parent is None:
+                continue
+            for dn in getattr(x, "DIMENSION_NAMES", ()):
+                raw = x.p[dn]
+                if isinstance(raw, tuple) and len(raw) == 2 and hasattr(raw[0], "p"):
+                    if id(raw[0]) not in ids or raw[0].parent is not x.parent:
+                        self.fail("C16.copy", f"{label}: dimension {dn} of {x.name} is linked to a {raw[0].name} that is not its own sibling", what="link")
+                        return
 
     def do_pickle(self, st):
         o = self.pick(st["level"], st["idx"])
